@@ -7,6 +7,9 @@ data.  TLC checks operational = declarative, no shared mutable objects, strictly
 duplicate rejection, heap well-formedness for every program of the families and prints each program with
 the expected content (intended switches) and the content the as-built switches give.
 
+Binding (B): the real listener is run with a recording subclass; its callback walk (callback name, order
+counter, class-stack depth, in-extends flag, current-symbol flag after every modelled callback) is compared
+step by step with the behaviour TLC walked for the same class (difference = model drift).
 Binding (C, oracle mode): each class is rendered (vf/render_class.py), parsed by pymoca.parser.parse
 (cache bypassed), projected and compared field by field with TLC's expectation; aliasing is observed by
 object identity AND by mutating one symbol's prefixes / type / dimensions and re-projecting all others.
@@ -19,10 +22,10 @@ from vf import tlc, par, ir_expr, render_class
 from vf.core import MachineryError, exc_record
 
 META = {
-    "ready": False,
+    "ready": True,
     "category": "model_checking",
     "technique": "TLA+ spec (ClassDecl.tla: class declarations as data, the parser listener as a callback machine on a heap with object identities, declarative projection) model-checked by TLC; every program rendered, parsed by the real front end, projected and compared incl. aliasing by identity and by mutation (oracle mode)",
-    "text": "TLC walks the listener callbacks (EnterClassDefinition ... ExitClassDefinition, 18 actions) for every class text of four families (one/two component clauses with 1-3 declarators x 8 prefix combinations x clause/declarator dimensions x modifications x comments; all interleavings of up to 3 (thorough 4) public/protected/equation/initial equation/algorithm/initial algorithm sections; nested classes, extends, four import forms in each kind of section; duplicates and near-duplicates) and checks that the heap it builds equals the declared content, that no two symbols share a type/prefixes/dimensions object or sub-list, that order numbers strictly increase and duplicates are rejected; every program is parsed by pymoca and name, type, prefixes, dimensions, visibility, order, comment, modifications, equations/statements per section, nested classes, extends and imports are compared with TLC's expectation; object sharing is tested by identity and by mutation.",
+    "text": "TLC walks the listener callbacks (EnterClassDefinition ... ExitClassDefinition, 18 actions) for every class text of four families (one/two component clauses with 1-3 declarators x 8 prefix combinations x clause/declarator dimensions x modifications x comments; all interleavings of up to 3 (thorough 4) public/protected/equation/initial equation/algorithm/initial algorithm sections; nested classes, extends, four import forms in each kind of section; duplicates and near-duplicates) and checks that the heap it builds equals the declared content, that no two symbols share a type/prefixes/dimensions object or sub-list, that order numbers strictly increase and duplicates are rejected; every program is parsed by pymoca and name, type, prefixes, dimensions, visibility, order, comment, modifications, equations/statements per section, nested classes, extends and imports are compared with TLC's expectation; object sharing is tested by identity and by mutation; the real listener is additionally run with a recording subclass and its callback sequence (name, order counter, class-stack depth, in-extends flag, current-symbol flag after each of the 19 modelled callbacks) must equal the behaviour TLC walked, step by step.",
     "note": "Trusted: TLC, the pretty-printer and reader vf/render_class.py. The unnamed leading section may be labelled private or public (the property does not name it). Not covered: final/inner/outer/replaceable/redeclare, conditional components, each/final in modifications, nested modifications, enumerations, short class definitions, external clauses, annotations. Values in modifications and subscripts are literals or names (expression syntax is C03's job).",
     "design_ref": "DESIGN.md section 4, C04",
 }
@@ -42,6 +45,76 @@ ACTIONS = ["EnterClassDefinition", "ExitClassSpecBase", "EnterElementList", "Exi
            "EnterDeclaration", "EnterElementModification", "ExitDeclaration", "ExitComponentDeclaration", "ExitComponentClause",
            "EnterExtendsClause", "ExitExtendsClause", "ExitImportClause", "ExitEquationSection", "ExitAlgorithmSection",
            "ExitComposition", "ExitClassSpec", "ExitClassDefinition"]
+
+
+# listener method -> action of ClassDecl.tla
+CALLBACK = {
+    "enterClass_definition": "EnterClassDefinition", "enterElement_list": "EnterElementList", "exitElement_list": "ExitElementList",
+    "enterComponent_clause": "EnterComponentClause", "enterComponent_declaration": "EnterComponentDeclaration",
+    "enterDeclaration": "EnterDeclaration", "enterElement_modification": "EnterElementModification",
+    "exitDeclaration": "ExitDeclaration", "exitComponent_declaration": "ExitComponentDeclaration",
+    "exitComponent_clause": "ExitComponentClause", "enterExtends_clause": "EnterExtendsClause",
+    "exitExtends_clause": "ExitExtendsClause", "exitImport_clause": "ExitImportClause",
+    "exitEquation_section": "ExitEquationSection", "exitAlgorithm_section": "ExitAlgorithmSection",
+    "exitComposition": "ExitComposition", "exitClass_spec_comp": "ExitClassSpec", "exitClass_spec_base": "ExitClassSpecBase",
+    "exitClass_definition": "ExitClassDefinition",
+}
+
+
+def traced_walk(text):
+    """binding B: run the REAL listener over the text and record, after each callback the spec models, the
+    cheap scalar state the spec's history variable `hist` holds.  Returns the recorded trace (None if the
+    text does not get as far as the walk)."""
+    import antlr4
+    from pymoca import parser as pp
+    from pymoca.generated.ModelicaLexer import ModelicaLexer
+    from pymoca.generated.ModelicaParser import ModelicaParser
+    rec = []
+
+    def wrap(meth, name):
+        base = getattr(pp.ASTListener, meth)
+
+        def f(self, ctx):
+            raised = True
+            try:
+                base(self, ctx)
+                raised = False
+            finally:
+                rec.append({"e": name, "symcount": self.sym_count, "depth": len(self.class_nodes),
+                            "inext": bool(self.in_extends_clause), "sym": self.symbol_node is not None, "err": raised})
+        return f
+    tracer = type("Tracer", (pp.ASTListener,), {m: wrap(m, n) for m, n in CALLBACK.items()})
+
+    def go(t):
+        stream = antlr4.CommonTokenStream(ModelicaLexer(antlr4.InputStream(t)))
+        prs = ModelicaParser(stream)
+        err = pp.ModelicaParserErrorListener()
+        prs.addErrorListener(err)
+        pt = prs.stored_definition()
+        if err.error:
+            return None
+        antlr4.ParseTreeWalker().walk(tracer(), pt)
+        return True
+    ok, exc = ir_expr.quiet_parse(go, text)
+    if ok is None and exc is None:
+        return None
+    return rec
+
+
+def trace_agrees(model_hist, rec):
+    """the model's walk and the recorded walk, callback by callback, up to the callback that raised"""
+    if rec is None:
+        return False, "no walk recorded"
+    for i, want in enumerate(model_hist):
+        if i >= len(rec):
+            return False, "recorded walk ends after %d callbacks, model continues with %s" % (len(rec), want["e"])
+        if rec[i] != want:
+            return False, "callback %d: model %s, recorded %s" % (i + 1, json.dumps(want, sort_keys=True), json.dumps(rec[i], sort_keys=True))
+        if want["err"]:
+            return (len(rec) == i + 1), "walk continues after the exception"
+    if len(rec) != len(model_hist):
+        return False, "recorded walk has %d callbacks, model %d" % (len(rec), len(model_hist))
+    return True, ""
 
 
 def rel_tags(tags, obs):
@@ -204,6 +277,11 @@ def check_program(p):
     tree, exc = parse(text)
     expect = copy.deepcopy(p["expect"])
     res = {"records": recs, "drift": drift, "text": text}
+    ok, why = trace_agrees(p["trace"], traced_walk(text))
+    res["trace_ok"] = ok
+    if not ok:
+        drift.append("recorded callback walk differs from the model's walk")
+        res["trace_why"] = why
     if expect["rejected"]:
         if exc is None and tree is not None:
             recs.append({"observable": "duplicate-accepted", "tags": rel_tags(tags, "duplicate-accepted"), "exception_type": None,
@@ -278,7 +356,7 @@ def _first_as_private(c):
 
 def _job(p):
     r = check_program(p)
-    return {"records": r["records"], "drift": r["drift"], "agree": r["agree"]}
+    return {"records": r["records"], "drift": r["drift"], "agree": r["agree"], "trace_ok": r["trace_ok"], "trace_why": r.get("trace_why")}
 
 
 # ---------------------------------------------------------------------------------------------
@@ -322,6 +400,10 @@ def run(ctx):
     per_obs = {}
     for p, res in zip(progs, results):
         agree[res["agree"]] += 1
+        if res["trace_ok"]:
+            ctx.traces += 1
+        elif "first_trace_difference" not in ctx.extra:
+            ctx.extra["first_trace_difference"] = {"text": render_class.render(p["class"]), "why": res["trace_why"]}
         for d in set(res["drift"]):
             ctx.note_drift(d)
         for rec in res["records"]:
@@ -366,6 +448,16 @@ def selftest(progs):
     for x, what in ((q, "visibility"), (q2, "equation order"), (q3, "rejection")):
         if not check_program(x)["records"]:
             raise MachineryError("binding self-test: corrupted %s expectation was not flagged" % what)
+    # the recorded walk of the real listener must be rejected when one logged field is corrupted
+    rec = traced_walk(render_class.render(p["class"]))
+    if trace_agrees(p["trace"], rec)[0]:
+        bad = copy.deepcopy(p["trace"])
+        k = next(i for i, h in enumerate(bad) if h["e"] == "EnterComponentDeclaration")
+        bad[k]["symcount"] += 1
+        bad2 = copy.deepcopy(p["trace"])
+        bad2[k], bad2[k + 1] = bad2[k + 1], bad2[k]
+        if trace_agrees(bad, rec)[0] or trace_agrees(bad2, rec)[0] or trace_agrees(p["trace"][:-1], rec)[0]:
+            raise MachineryError("binding self-test: a corrupted callback trace was accepted")
 
 
 def replay(ctx, sc):
